@@ -13,8 +13,8 @@
 //   expected observation is the same for every profile):
 //     GET|HEAD|POST|PUT|PATCH|DELETE|OPTIONS  request method (default GET)      idem   Idempotency-Key header set
 //     body      the request carries a body with GetBody                        ctxv   context with a value and a cancel func
-//     lat<us>   every call of the transport takes <us> microseconds             outer0 RetryMiddleware(0, d) stacked outside
-//     inner0    RetryMiddleware(0, d) stacked inside (between the instance under test and the transport)
+//     lat<us>   every call of the transport takes <us> microseconds             outer<k> RetryMiddleware(k, d) stacked outside
+//     inner<k>  RetryMiddleware(k, d) stacked inside (between the instance under test and the transport)
 // stdout: <id> <calls> <resp identity or -> <err identity or -> <sleeps> <first_gap_ok>
 //   identity of a response/error = index of the call that produced it.
 //   sleeps = number of calls i>0 that started at least delay after call i-1 returned
@@ -150,7 +150,7 @@ func runCase(line string) string {
 		sc = f[3]
 	}
 	scripts := strings.Split(sc, "|")
-	prof := profile{method: "GET"}
+	prof := profile{method: "GET", outer: -1, inner: -1}
 	if len(f) > 4 {
 		prof = parseProfile(f[4])
 	}
@@ -159,12 +159,15 @@ func runCase(line string) string {
 	var base http.RoundTripper = middleware.RoundTripper(func(r *http.Request) (*http.Response, error) {
 		return cur.RoundTrip(r)
 	})
-	if prof.inner0 {
-		base = middleware.RetryMiddleware(0, d)(base)
+	if prof.inner >= 0 {
+		base = middleware.RetryMiddleware(prof.inner, d)(base)
+	}
+	if prof.logIn {
+		base = middleware.LoggingMiddleware(base)
 	}
 	rt := middleware.RetryMiddleware(n, d)(base)
-	if prof.outer0 {
-		rt = middleware.RetryMiddleware(0, d)(rt)
+	if prof.outer >= 0 {
+		rt = middleware.RetryMiddleware(prof.outer, d)(rt)
 	}
 	var parts []string
 	for _, one := range scripts {
@@ -180,13 +183,14 @@ type profile struct {
 	idem, body     bool
 	ctxv           bool
 	lat            time.Duration
-	outer0, inner0 bool
+	outer, inner   int  // RetryMiddleware(k, d) stacked outside / inside the instance under test; -1 = none
+	logIn          bool // LoggingMiddleware between the instance under test and what is below it
 }
 
 type ctxKey struct{}
 
 func parseProfile(s string) profile {
-	p := profile{method: "GET"}
+	p := profile{method: "GET", outer: -1, inner: -1}
 	for _, t := range strings.Split(s, "+") {
 		switch {
 		case t == "" || t == "-":
@@ -196,10 +200,18 @@ func parseProfile(s string) profile {
 			p.body = true
 		case t == "ctxv":
 			p.ctxv = true
-		case t == "outer0":
-			p.outer0 = true
-		case t == "inner0":
-			p.inner0 = true
+		case strings.HasPrefix(t, "outer"), strings.HasPrefix(t, "inner"):
+			k, err := strconv.Atoi(t[5:])
+			if err != nil {
+				panic(err)
+			}
+			if t[0] == 'o' {
+				p.outer = k
+			} else {
+				p.inner = k
+			}
+		case t == "login":
+			p.logIn = true
 		case strings.HasPrefix(t, "lat"):
 			us, err := strconv.Atoi(t[3:])
 			if err != nil {
